@@ -34,6 +34,18 @@ struct Sh {
         }
         return NAN;
     }
+    // independent reference outward unit normal at a surface point
+    Vec3 outward(const Vec3& p) const {
+        switch (k) {
+        case HS:  return Vec3(-1, 0, 0);
+        case SPH: return p / p.norm();
+        case CYL: { Vec3 q(p[0], p[1], 0); return q / q.norm(); }
+        case ELL: { Vec3 q(p[0]/(a*a), p[1]/(b*b), p[2]/(c*c)); return q / q.norm(); }
+        case TOR: { double rho = std::hypot(p[0], p[1]); Vec3 cc(a*p[0]/rho, a*p[1]/rho, 0); Vec3 q = p - cc; return q / q.norm(); }
+        case BOX: { Vec3 q(0); double h[3] = {a, b, c}; int best = 0; double bd = INFINITY; for (int i = 0; i < 3; ++i) { double dd = std::abs(std::abs(p[i]) - h[i]); if (dd < bd) { bd = dd; best = i; } } q[best] = p[best] < 0 ? -1 : 1; return q; }
+        }
+        return Vec3(NAN);
+    }
     double scale() const { switch (k) { case HS: return 1; case SPH: case CYL: return a; case ELL: case BOX: return std::max(a, std::max(b, c)); case TOR: return a + b; } return 1; }
     // random surface point (near = a point whose neighbourhood is sampled preferentially for unbounded shapes)
     Vec3 sample(vh::Rng& g, const Vec3& nearp) const {
@@ -164,27 +176,42 @@ static void emitImp(const char* fn, const ContactGeometry& geo, const Vec3& p) {
 }
 
 // -------------------------------------------------------------------------------- rays
+// independent first crossing of the surface along the ray: dense sampling of the reference implicit function + bisection;
+// returns NaN if no sign change is seen (a grazing double crossing between two samples is not resolved)
+static double refFirstHit(const Sh& s, const Vec3& o, const Vec3& d, double far) {
+    const int N = 6000; double fo = s.f(o), tp = 0;
+    for (int i = 1; i <= N; ++i) {
+        double t = far * i / N; double fv = s.f(o + t * d);
+        if ((fv > 0) != (fo > 0)) { double lo = tp, hi = t; for (int it = 0; it < 100; ++it) { double m = 0.5 * (lo + hi); if ((s.f(o + m * d) > 0) != (fo > 0)) hi = m; else lo = m; } return 0.5 * (lo + hi); }
+        tp = t;
+    }
+    return NAN;
+}
 static void rayPredicates(const Sh& s, const std::string& cls, const Vec3& o, const UnitVec3& d, bool hit, double dist, const UnitVec3& n) {
     const double L = s.scale();
     double fo = s.f(o);
+    const bool offSurface = std::abs(fo) > 1e-9 * L;
+    double ref = offSurface ? refFirstHit(s, o, Vec3(d), 12.0 * L + 2.0 * o.norm()) : NAN;
     if (hit) {
         // first hit: the implicit function keeps the sign it has at the origin strictly before the hit
         // (a non-finite distance fails here and nothing else is evaluated for it)
         double bad = 0;
-        if (std::isfinite(dist) && std::abs(fo) > 1e-9 * L)
+        if (std::isfinite(dist) && offSurface)
             for (int i = 1; i < 400; ++i) { double t = dist * i / 400.0 * (1 - 1e-9); double fv = s.f(o + t * Vec3(d)); if ((fv > 0) != (fo > 0) && std::abs(fv) > 1e-9 * L) bad = 1; }
         vh::P("ray_first_hit", key(s, "intersectsRay", cls, "first_hit"), std::isfinite(dist) ? bad : NAN, 0);
         if (!std::isfinite(dist)) return;
-        Vec3 hp = o + dist * Vec3(d);
+        Vec3 hp = o + dist * Vec3(d);      // the API reports the distance along the unit direction: |hit - origin| = distance
         vh::P("ray_dist_nonneg", key(s, "intersectsRay", cls, "distance_nonneg"), -dist / L, 1e-12);
         vh::P("ray_hit_on_surface", key(s, "intersectsRay", cls, "hit_on_surface"), std::abs(s.f(hp)) / L, 1e-9);
         vh::P("ray_unit_normal", key(s, "intersectsRay", cls, "unit_normal"), finite3(Vec3(n)) ? std::abs(Vec3(n).norm() - 1) : NAN, 1e-12);
+        // the reported normal is the outward unit normal of the surface at the hit point
+        if (finite3(Vec3(n)) && std::abs(s.f(hp)) <= 1e-9 * L)
+            vh::P("ray_normal_outward", key(s, "intersectsRay", cls, "normal_is_outward_normal"), (Vec3(n) - s.outward(hp)).norm(), 1e-7);
+        // distance = independent first crossing (when the sampling resolves one)
+        if (std::isfinite(ref)) vh::P("ray_distance_exact", key(s, "intersectsRay", cls, "distance_exact"), std::abs(dist - ref) / L, 1e-8);
     } else {
-        // reported miss: the ray must not cross the surface (sampled far out)
-        double bad = 0;
-        if (std::abs(fo) > 1e-9 * L)
-            for (int i = 1; i <= 2000; ++i) { double t = 20.0 * L * i / 2000.0; double fv = s.f(o + t * Vec3(d)); if ((fv > 0) != (fo > 0) && std::abs(fv) > 1e-6 * L) bad = 1; }
-        vh::P("ray_miss_sound", key(s, "intersectsRay", cls, "miss_is_miss"), bad, 0);
+        // reported miss: the ray must not cross the surface
+        vh::P("ray_miss_sound", key(s, "intersectsRay", cls, "miss_is_miss"), std::isfinite(ref) ? 1 : 0, 0);
     }
 }
 static void emitRay(const char* fn, bool hit, double dist, const UnitVec3& n) {
@@ -486,6 +513,33 @@ static std::vector<double> cat(std::vector<double> v, const Vec3& p) { v.push_ba
 // a tangent unit vector at surface point p (gradient gr)
 static Vec3 tangentAt(vh::Rng& g, const Vec3& gr) { Vec3 n = gr / gr.norm(); Vec3 t; do { Vec3 r = rndUnit(g); t = r - (~r * n) * n; } while (t.norm() < 0.2); return Vec3(UnitVec3(t)); }
 
+// Stratified ray stream: every (shape with intersectsRay) x (origin class) x (heading class) combination is visited in turn,
+// so that each quick run contains a guaranteed share of every class.  Origin classes: inside / outside / just inside /
+// just outside the surface (1e-3 of the size); headings: inward / outward / tangential (relative to the surface normal at the
+// nearby surface point) and the six axis directions.
+static void stratifiedRay(vh::Rng& g, long counter) {
+    static const Kind shapes[4] = {HS, SPH, CYL, ELL};
+    static const char* oname[4] = {"inside", "outside", "just_inside", "just_outside"};
+    static const char* hname[4] = {"inward", "outward", "tangential", "axis"};
+    Kind k = shapes[counter % 4]; int oc = (counter / 4) % 4, hc = (counter / 16) % 4; int axis = (counter / 64) % 6;
+    Sh s{k, 0, 0, 0}; std::vector<double> par;
+    switch (k) { case HS: break; case SPH: case CYL: s.a = g.range(0.3, 3); par = {s.a}; break;
+      default: s.a = g.range(0.5, 3); s.b = g.range(0.5, 3); s.c = g.range(0.5, 3); par = {s.a, s.b, s.c}; break; }
+    const double L = s.scale(), minDim = k == ELL ? std::min(s.a, std::min(s.b, s.c)) : (k == HS ? 1.0 : s.a);
+    Vec3 S = s.sample(g, Vec3(0)), N = s.outward(S);
+    double delta = (oc == 0) ? g.range(0.15, 0.7) * minDim : (oc == 1) ? g.range(0.1, 2.0) * L : 1e-3 * L;
+    Vec3 o = (oc == 0 || oc == 2) ? S - delta * N : S + delta * N;
+    if ((oc == 0 || oc == 2) && !(s.f(o) > 0)) o = S - 0.05 * minDim * N;     // stay strictly inside
+    Vec3 d;
+    if (hc == 0) d = Vec3(UnitVec3(-N + 0.3 * rndUnit(g)));
+    else if (hc == 1) d = Vec3(UnitVec3(N + 0.3 * rndUnit(g)));
+    else if (hc == 2) { Vec3 t; do { Vec3 r = rndUnit(g); t = r - (~r * N) * N; } while (t.norm() < 0.3); d = Vec3(UnitVec3(t)); }
+    else { d = Vec3(0); d[axis % 3] = axis < 3 ? 1 : -1; }
+    // the two known degenerate directions live in the degenerate stream under their own keys
+    if (k == CYL && std::hypot(d[0], d[1]) < 1e-3) { d = Vec3(UnitVec3(Vec3(0.6, 0, d[2] < 0 ? -0.8 : 0.8))); }
+    caseRay(k, std::string(oname[oc]) + "." + hname[hc], cat(cat(par, o), d));
+}
+
 static void generic(vh::Rng& g, long n) {
     caseConsts();
     for (long it = 0; it < n; ++it) {
@@ -543,6 +597,7 @@ static void generic(vh::Rng& g, long n) {
                 else caseSupport(BOX, "generic", cat(par, rndUnit(g)));
                 break;
         }
+        if (it % 3 == 0) stratifiedRay(g, it / 3);
         if (it % 7 == 0) caseEllDir("generic", cat({radii[0], radii[1], radii[2]}, p));
         if (it % 11 == 0) {
             std::vector<double> hv; for (int i = 0; i < 36; ++i) hv.push_back(g.range(-0.5, 0.5));
